@@ -275,6 +275,28 @@ def python_tables():
     return spaces, zeros
 
 
+def python_word_ranges():
+    """Inclusive code point ranges of the characters `\\w` matches in a `str` pattern (what `re` itself says);
+    `\\d` must be exactly the Nd digits of `python_tables` (checked)."""
+    import re
+
+    word = re.compile(r"\w")
+    digit = re.compile(r"\d")
+    ranges: list[list[int]] = []
+    for cp in range(0x110000):
+        if 0xD800 <= cp <= 0xDFFF:
+            continue
+        ch = chr(cp)
+        if (digit.fullmatch(ch) is not None) != (unicodedata.category(ch) == "Nd"):
+            raise ExtractError(f"re \\d disagrees with category Nd at {cp:#x}")
+        if word.fullmatch(ch) is not None:
+            if ranges and ranges[-1][1] == cp - 1:
+                ranges[-1][1] = cp
+            else:
+                ranges.append([cp, cp])
+    return ranges
+
+
 def field_spec(name, f, fields_mod, nested_name):
     from marshmallow import validate
 
@@ -379,6 +401,8 @@ def extract(repo: str):
     vk = []
     for k, v, _ in VERS:
         a, b = k.split(".")
+        if f"{int(a)}.{int(b)}" != k:
+            raise ExtractError(f"PROTOCOL_VERSIONS key {k!r} is not a canonical major.minor string")
         vk.append(f"(.{v}, {int(a)}, {int(b)})")
     emit(f"/-- `PROTOCOL_VERSIONS` keys as (version, major, minor). -/\ndef versionKeys : List (Ver × Nat × Nat) := {lean_list(vk)}")
 
@@ -681,6 +705,9 @@ def extract(repo: str):
     emit("/-- First code point of every block of ten decimal digits (category Nd). -/")
     emit(f"def pyDecimalZeros : List Nat := {lean_list([str(c) for c in zeros])}")
     emit(f"def pyMaxStrDigits : Nat := {sys.get_int_max_str_digits()}")
+    words = python_word_ranges()
+    emit("/-- Inclusive code point ranges matched by `\\w` in a `str` regular expression (awesomeversion's CalVer pattern). -/")
+    emit(f"def pyWordRanges : List (Nat × Nat) := {lean_list([f'({a}, {b})' for a, b in words])}")
     js["py"] = {"spaces": spaces, "zeros": zeros, "maxStrDigits": sys.get_int_max_str_digits(),
                 "unidata": unicodedata.unidata_version}
     js["bodyHashes"] = hashes
